@@ -20,10 +20,13 @@ package c06
 // background flush timer is stopped (its context is cancelled right after creation,
 // as harness/c17 does), flushes are explicit ops, so a case stays a pure function of
 // its data. The model of seq_test.go therefore has two parts: disk (what leveldb must
-// hold now) and batch (acknowledged, unflushed saves). A region saved and displaced
-// within one unflushed batch comes back with the flush as a leftover that the next load
-// removes — accepted, documented behaviour (C17's assumptions); it is modelled, counted
-// (class rs-leftover-after-flush) and not flagged. What is flagged with rsOn: a displaced
+// hold now) and batch (acknowledged, unflushed saves). Finding keyBatchLeftover
+// (findings_test.go): Storage.DeleteRegion removes the record from leveldb only, so a region
+// saved and displaced within one unflushed batch comes back with the flush as a leftover
+// that a later load removes. While the finding is 'known' exactly that is modelled (the
+// batch is not purged by a delete), counted (class rs-leftover-after-flush, Exclude) and
+// not flagged; once it is fixed or absent the model purges the buffered save of a displaced
+// region and any leftover is a violation. What is flagged with rsOn in either case: a displaced
 // region whose record is still in leveldb right after the heartbeat, any difference
 // between leveldb and the model, and — after a flush + load round (cold restart, and
 // the epilogue of every rsOn case) — storage != cache or overlapping records.
